@@ -23,6 +23,7 @@ import (
 	"sync"
 	"sync/atomic"
 	"testing"
+	"time"
 
 	"github.com/hhkbp2/go-logging"
 	"github.com/snower/slock/protocol"
@@ -44,6 +45,7 @@ const (
 	v12KeyFormat    = "C12:AofId:format-parse"
 	v12KeyStore     = "C12:ArbiterStore:roundtrip"
 	v12KeyHarness   = "C12:harness"
+	v12KeyAnnounce  = "C12:restart:announced-commit-not-persisted"
 	v12WrapDistance = uint64(0x7fffffff00000000)
 )
 
@@ -112,7 +114,7 @@ type v12Round struct {
 }
 
 type v12Step struct {
-	Op        string `json:"op"` // prop | commit | restart
+	Op        string `json:"op"` // prop | commit | restart | announce (winner of Round tells member To about the new leader)
 	Round     int    `json:"round,omitempty"`
 	To        int    `json:"to"`
 	Lost      bool   `json:"lost,omitempty"`       // request lost: never delivered
@@ -312,6 +314,10 @@ type v12Node struct {
 	lg     *v12Logger
 	tokens map[int]*BinaryServerProtocol // sender member index -> the "connection" its requests arrive on
 	boots  int
+	// what the unchanged code is expected to have in meta.pb: the setup's commit id, later the member's commit id at the
+	// moment it processed an announcement (the handler's Save is the only place an acceptor persists it)
+	persisted uint64
+	annDone   chan struct{} // one token per finished "update status" goroutine of the announcement handler
 }
 
 func (n *v12Node) state() v12AccState {
@@ -384,9 +390,22 @@ func (cl *v12Cluster) boot(i int) *v12Err {
 	n, m := cl.nodes[i], cl.c.Members[i]
 	Config = v12ServerConfig(n.dir)
 	n.lg = &v12Logger{}
+	done := make(chan struct{}, 64)
+	n.annDone = done
+	n.lg.hook = func(format string, args []interface{}) {
+		if strings.HasPrefix(format, "Arbiter handle announcementcommand update status succed") {
+			done <- struct{}{}
+		}
+	}
 	n.slock = v12BareSLock(n.lg)
 	n.mgr = NewArbiterManager(n.slock, "v12")
 	n.slock.arbiterManager = n.mgr
+	// updateStatus returns before it touches the replication layer (there is none here); no election handler and
+	// nothing in the store reads this flag
+	n.mgr.isClosing = true
+	if n.boots == 0 {
+		n.persisted = m.Commit
+	}
 	n.boots++
 	if err := n.mgr.Load(); err != nil {
 		return v12Fail(v12KeyStore, "member %d: Load from saved metadata failed: %v", i, err)
@@ -395,9 +414,9 @@ func (cl *v12Cluster) boot(i int) *v12Err {
 	if mgr.ownMember == nil || mgr.ownMember.host != v12Host(i) || len(mgr.members) != len(cl.c.Members) {
 		return v12Fail(v12KeyStore, "member %d: Load restored own=%v members=%d", i, mgr.ownMember, len(mgr.members))
 	}
-	if mgr.voter.commitId != m.Commit || mgr.voter.proposalId != m.Commit || mgr.voter.proposalHost != "" {
+	if mgr.voter.proposalId != mgr.voter.commitId || mgr.voter.proposalHost != "" || (n.persisted == m.Commit && mgr.voter.commitId != m.Commit) {
 		return v12Fail(v12KeyStore, "member %d: Load restored accepted=%d committed=%d pending=%q, saved commit id %d", i,
-			mgr.voter.proposalId, mgr.voter.commitId, mgr.voter.proposalHost, m.Commit)
+			mgr.voter.proposalId, mgr.voter.commitId, mgr.voter.proposalHost, n.persisted)
 	}
 	if m.Arbiter == 0 && n.slock.replicationManager.currentAofId != m.Pos.id() {
 		return v12Fail(v12KeyStore, "member %d: Load found log position %s, aof tail is %s", i,
@@ -425,6 +444,9 @@ func (cl *v12Cluster) boot(i int) *v12Err {
 			tok := &BinaryServerProtocol{}
 			n.tokens[j] = tok
 			am.server = &ArbiterServer{member: am, protocol: tok}
+			// an outgoing connection that is down: what the code sends on its own (re-announcements to a known leader)
+			// fails with "client closed" instead of going anywhere; layer 3 replaces it for its candidates
+			am.client = &ArbiterClient{member: am, glock: &sync.Mutex{}, rchannel: make(chan protocol.CommandDecode, 8), closed: true, closedWaiter: make(chan struct{})}
 			if m.Polled && mj.Arbiter == 0 {
 				am.aofId = mj.Pos.id()
 			}
@@ -744,6 +766,7 @@ type v12RoundRun struct {
 	commitSent map[int]bool
 	acks       map[int]bool // acceptors whose positive proposal reply reached the candidate
 	recorded   map[int]bool // acceptors that recorded this round's commit
+	annSent    map[int]bool
 }
 
 // v12CallProposal delivers a proposal request of candidate member `from` to acceptor `to` through the real
@@ -807,6 +830,12 @@ type v12Monitor struct {
 	taintAt   map[int]string
 	tolerate  map[string]bool
 	voterMode bool // layer 3: winners are judged by DoCommit's result, not by recorded majorities alone
+	// announcements (layer 2): floor = commit id a member held when it processed an announcement (persisted by the
+	// handler's Save); it must survive a restart and stale requests with a number <= floor stay refused
+	floor      map[int]uint64
+	reborn     map[int]bool // restarted after a processed announcement
+	announced  bool         // some announcement was processed: the election is over, later majorities are not "overlapping"
+	annVersion map[string][2]uint64
 }
 
 // conclude: the candidacy is over (failed or won); later proposals of others do not overlap with it.
@@ -818,6 +847,7 @@ func (m *v12Monitor) conclude(label string) {
 
 func v12NewMonitor(cl *v12Cluster, info *v12Info) *v12Monitor {
 	m := &v12Monitor{cl: cl, info: info, recorded: map[string]map[int]bool{}, causes: map[string][]string{}, taintAt: map[int]string{},
+		floor: map[int]uint64{}, reborn: map[int]bool{}, annVersion: map[string][2]uint64{},
 		tolerate: map[string]bool{v12KeyForeign: cl.c.SkipForeignCommit, v12KeyOwnOverwrite: cl.c.TolerateOwnOverwrite, v12KeyForeignClear: cl.c.TolerateForeignClear}}
 	for range cl.c.Members {
 		m.acked = append(m.acked, map[uint64]string{})
@@ -887,6 +917,10 @@ func (m *v12Monitor) afterProposal(label string, cand, to int, pid uint64, pos v
 		}
 	}
 	m.open[to][label] = cand
+	if fl, ok := m.floor[to]; ok && m.reborn[to] && pid <= fl {
+		m.info.nontrivial = true
+		m.info.class("announce, restart, then stale proposal delivered")
+	}
 	if post.proposalId < pre.proposalId || post.commitId < pre.commitId {
 		return v12Fail(v12KeyRegress, "member %d: numbers went backwards on a proposal: %s -> %s [%s]", to, pre, post, m.history())
 	}
@@ -900,6 +934,10 @@ func (m *v12Monitor) afterProposal(label string, cand, to int, pid uint64, pos v
 		return nil
 	}
 	m.info.class("proposal accepted")
+	if fl, ok := m.floor[to]; ok && pid <= fl {
+		return v12Fail(v12KeyAnnounce, "member %d accepted the stale proposal n=%d of %s although it had processed (and must have saved) an announcement with commit id %d before its restart; state %s -> %s [%s]",
+			to, pid, label, fl, pre, post, m.history())
+	}
 	if !(pid > pre.proposalId && pid > pre.commitId && pre.host == "") {
 		key, withheld := m.blame(v12KeyAcceptor, to)
 		if !withheld {
@@ -941,6 +979,10 @@ func (m *v12Monitor) afterCommit(label string, cand, to int, pid uint64, host st
 		return nil
 	}
 	m.info.class("commit recorded")
+	if fl, ok := m.floor[to]; ok && pid <= fl {
+		return v12Fail(v12KeyAnnounce, "member %d recorded the stale commit n=%d of %s although it had processed an announcement with commit id %d before; state %s -> %s [%s]",
+			to, pid, label, fl, pre, post, m.history())
+	}
 	if pre.proposalId != pid || pre.commitId >= pid || pre.host != "" {
 		key, withheld := m.blame(v12KeyAcceptor, to)
 		if !withheld {
@@ -960,6 +1002,12 @@ func (m *v12Monitor) afterCommit(label string, cand, to int, pid uint64, host st
 		m.info.class("commit majority recorded")
 		if len(m.winners) > 1 && m.voterMode {
 			m.info.class("two recorded commit majorities (at most one candidate may succeed)")
+		}
+		if len(m.winners) > 1 && !m.voterMode && m.announced {
+			// an announcement legitimately ended the election (and cleared pending commits): later majorities do not overlap
+			m.info.class("further commit majority after an announcement (not judged)")
+			m.winners = m.winners[:1]
+			return nil
 		}
 		if len(m.winners) > 1 && !m.voterMode {
 			key, withheld := m.blameAny(v12KeyTwoWin)
@@ -992,7 +1040,7 @@ func (m *v12Monitor) describeWinners() string {
 func (m *v12Monitor) restart(i int) (bool, *v12Err) {
 	n := m.cl.nodes[i]
 	pre := n.state()
-	saved := m.cl.c.Members[i].Commit
+	saved := n.persisted
 	forgetful := pre.proposalId != saved || pre.commitId != saved || pre.host != ""
 	if forgetful && m.cl.c.SkipForgetfulRestart {
 		m.info.skipped++
@@ -1006,6 +1054,14 @@ func (m *v12Monitor) restart(i int) (bool, *v12Err) {
 	m.acked[i] = map[uint64]string{}
 	m.logf("restart m%d: %s -> %s", i, pre, post)
 	m.info.class("restart executed")
+	if fl, ok := m.floor[i]; ok {
+		m.reborn[i] = true
+		m.info.class("restart after a processed announcement")
+		if post.commitId < fl || post.proposalId < fl {
+			return false, v12Fail(v12KeyAnnounce, "member %d processed an announcement while holding commit id %d, restarted from its saved metadata and came back with %s (before the restart %s): the committed number of the finished election is not in meta.pb [%s]",
+				i, fl, post, pre, m.history())
+		}
+	}
 	if post.proposalId < pre.proposalId || post.commitId < pre.commitId || (pre.host != "" && post.host == "") {
 		m.forgot = append(m.forgot, fmt.Sprintf("m%d %s -> %s", i, pre, post))
 		m.cause(v12KeyRestart, i, fmt.Sprintf("m%d restarted and forgot %s -> %s", i, pre, post))
@@ -1015,6 +1071,82 @@ func (m *v12Monitor) restart(i int) (bool, *v12Err) {
 			i, pre, post, saved, m.history()))
 	}
 	return false, nil
+}
+
+// announce delivers the REPL_ANNOUNCEMENT a winner sends after voteSucced() to member `to`, built as
+// ArbiterMember.DoAnnouncement builds it from the winner's state (leader role for the elected host, version + 1,
+// the winner's commit id), through the real handler.
+func (m *v12Monitor) announce(label string, r v12Round, to int) *v12Err {
+	cl := m.cl
+	cn, node := cl.nodes[r.Cand], cl.nodes[to]
+	ver, seen := m.annVersion[label]
+	if !seen {
+		// what voteSucced does on the winner before it announces: roles, version, Save
+		ver = [2]uint64{uint64(cn.mgr.version) + 1, cn.mgr.vertime + 1 + uint64(len(m.annVersion))}
+		m.annVersion[label] = ver
+		for j, am := range cn.mgr.members {
+			switch {
+			case j == r.Host:
+				am.role = ARBITER_ROLE_LEADER
+				cn.mgr.leaderMember = am
+			case am.arbiter != 0:
+				am.role = ARBITER_ROLE_ARBITER
+			default:
+				am.role = ARBITER_ROLE_FOLLOWER
+			}
+		}
+		cn.mgr.version, cn.mgr.vertime = uint32(ver[0]), ver[1]
+		if r.Host == r.Cand {
+			cn.mgr.voter.proposalHost, cn.mgr.voter.proposalFromHost = "", ""
+		}
+		_ = cn.mgr.store.Save(cn.mgr)
+		cn.persisted = cn.state().commitId
+	}
+	var members []*protobuf.ReplSetMember
+	for _, am := range cn.mgr.members {
+		members = append(members, &protobuf.ReplSetMember{Host: am.host, Weight: am.weight, Arbiter: am.arbiter, Role: uint32(am.role)})
+	}
+	req := &protobuf.ArbiterAnnouncementRequest{FromHost: v12Host(r.Cand), ToHost: v12Host(to), Replset: &protobuf.ReplSet{Name: cn.mgr.name, Gid: cn.mgr.gid,
+		Version: uint32(ver[0]), Vertime: ver[1], Owner: v12Host(to), Members: members, CommitId: r.Pid}}
+	data, err := proto.Marshal(req)
+	if err != nil {
+		return v12Fail(v12KeyHarness, "marshal: %v", err)
+	}
+	pre := node.state()
+	res, err := node.mgr.commandHandleAnnouncementCommand(node.tokens[r.Cand], protocol.NewCallCommand("REPL_ANNOUNCEMENT", data))
+	if err != nil || res == nil {
+		return v12Fail(v12KeyAcceptor, "announcement handler of member %d returned (%v, %v)", to, res, err)
+	}
+	ok := res.Result == 0 && res.ErrType == ""
+	if ok {
+		select {
+		case <-node.annDone:
+		case <-time.After(90 * time.Second):
+			fmt.Printf("VERIF-INCONCLUSIVE C12 acceptor: announcement epilogue of member %d did not finish\n", to)
+			vFlush()
+			os.Exit(3)
+		}
+	}
+	post := node.state()
+	m.logf("%s announcement (leader m%d, version %d, commit id %d) -> m%d: %v %s %s", label, r.Host, ver[0], r.Pid, to, ok, res.ErrType, post)
+	if post.proposalId < pre.proposalId || post.commitId < pre.commitId {
+		return v12Fail(v12KeyRegress, "member %d: numbers went backwards on an announcement: %s -> %s [%s]", to, pre, post, m.history())
+	}
+	if !ok {
+		m.info.class("announcement refused")
+		return nil
+	}
+	m.info.class("announcement processed")
+	if pre.host != "" && post.host == "" {
+		m.info.class("announcement cleared a pending commit")
+	}
+	m.announced = true
+	m.floor[to] = post.commitId
+	node.persisted = post.commitId
+	for _, o := range m.open {
+		delete(o, label)
+	}
+	return nil
 }
 
 func (m *v12Monitor) finish() *v12Err {
@@ -1044,7 +1176,7 @@ func v12RunAcceptor(c *v12Case) (v12Info, *v12Err) {
 	mon := v12NewMonitor(cl, &info)
 	runs := make([]*v12RoundRun, len(c.Rounds))
 	for i := range runs {
-		runs[i] = &v12RoundRun{map[int]bool{}, map[int]bool{}, map[int]bool{}, map[int]bool{}}
+		runs[i] = &v12RoundRun{map[int]bool{}, map[int]bool{}, map[int]bool{}, map[int]bool{}, map[int]bool{}}
 	}
 	pids := map[uint64]int{}
 	for _, r := range c.Rounds {
@@ -1074,6 +1206,20 @@ func v12RunAcceptor(c *v12Case) (v12Info, *v12Err) {
 		label := fmt.Sprintf("m%d/n%d", r.Cand, r.Pid)
 		node := cl.nodes[s.To]
 		switch s.Op {
+		case "announce":
+			// only the holder of a recorded commit majority announces; the winner itself is told nothing (it saved in
+			// voteSucced), a weight-0 host would resign at once (QuitLeader needs the replication layer)
+			if len(mon.recorded[label]) < cl.majority() || s.To == r.Cand || c.Members[r.Host].Weight == 0 || c.Members[r.Host].Down || run.annSent[s.To] {
+				continue
+			}
+			run.annSent[s.To] = true
+			if s.Lost {
+				mon.logf("%s announcement -> m%d lost", label, s.To)
+				continue
+			}
+			if e = mon.announce(label, r, s.To); e != nil {
+				return info, e
+			}
 		case "prop":
 			if run.propSent[s.To] || len(run.commitSent) > 0 {
 				continue
@@ -1249,6 +1395,51 @@ func v12GenAcceptorCase(t *rapid.T) *v12Case {
 	}
 	keep := rapid.IntRange(len(order)/3, len(order)).Draw(t, "keep")
 	order = append(order[:keep:keep], rapid.Permutation(late).Draw(t, "lateOrder")...)
+	// epilogue (drawn): the winner - whichever candidacy holds a recorded commit majority by then - announces the new
+	// leader, pure acceptors restart from their saved metadata, and delayed proposals / commits of the other
+	// candidacies reach the restarted members only now (they are taken out of the main part)
+	var epilogue []v12Step
+	if rapid.IntRange(0, 9).Draw(t, "epilogue") < 8 {
+		isCand := map[int]bool{}
+		for _, cand := range c.Cands {
+			isCand[cand] = true
+		}
+		var pure []int
+		for _, i := range up {
+			if !isCand[i] {
+				pure = append(pure, i)
+			}
+		}
+		for r := range c.Rounds {
+			for _, to := range rapid.Permutation(up).Draw(t, "annOrder") {
+				epilogue = append(epilogue, v12Step{Op: "announce", Round: r, To: to, Lost: rapid.IntRange(0, 9).Draw(t, "annLost") == 0})
+			}
+		}
+		if len(pure) > 0 {
+			victims := rapid.Permutation(pure).Draw(t, "victims")
+			victims = victims[:rapid.IntRange(1, len(victims)).Draw(t, "victimCount")]
+			delayed := map[[2]int]bool{}
+			var stale []v12Step
+			for _, v := range victims {
+				epilogue = append(epilogue, v12Step{Op: "restart", To: v})
+				for r := range c.Rounds {
+					if rapid.IntRange(0, 3).Draw(t, "staleProp") != 0 {
+						delayed[[2]int{r, v}] = true
+						stale = append(stale, v12Step{Op: "prop", Round: r, To: v}, v12Step{Op: "commit", Round: r, To: v})
+					}
+				}
+			}
+			epilogue = append(epilogue, stale...)
+			kept := order[:0:0]
+			for _, s := range order {
+				if delayed[[2]int{s.Round, s.To}] {
+					continue
+				}
+				kept = append(kept, s)
+			}
+			order = kept
+		}
+	}
 	for _, s := range order {
 		switch rapid.IntRange(0, 13).Draw(t, "fate") {
 		case 0:
@@ -1260,6 +1451,7 @@ func v12GenAcceptorCase(t *rapid.T) *v12Case {
 		}
 		c.Script = append(c.Script, s)
 	}
+	c.Script = append(c.Script, epilogue...)
 	return c
 }
 
